@@ -9,6 +9,6 @@ if ! git diff --quiet; then echo "repo dirty"; exit 2; fi
 git apply "$patch" 2>/dev/null || patch -p1 -s -F3 < "$patch" || { echo "patch does not apply"; git checkout -- .; exit 2; }
 trap 'git -C /repo checkout -- . ; find /repo -name "*.orig" -delete; find /repo -name "*.rej" -delete' EXIT
 for p in "$@"; do
-  IVQ_VERIF=${IVQ_VERIF:-/tmp/ivqtry} /verif/bin/ivq check -p "$p" 2>&1 | grep -v "^WARNING conda" | tail -${TAIL:-6}
+  IVQ_VERIF=${IVQ_VERIF:-/tmp/ivqtry} ${IVQ_BIN:-/verif/bin/ivq} check -p "$p" 2>&1 | grep -v "^WARNING conda" | tail -${TAIL:-6}
   echo "exit=${PIPESTATUS[0]}"
 done
